@@ -37,21 +37,21 @@ namespace celma { namespace log { namespace detail {
 ///    1.15.0, 11.10.2018
 ScopedAttribute::ScopedAttribute( const std::string& name,
    const std::string& value):
-      mAttributeName( name)
+      mAttributeName( name),
+      mAttributeId( Logging::instance().addAttribute( name, value))
 {
-
-   Logging::instance().addAttribute( name, value);
 } // ScopedAttribute::ScopedAttribute
 
 
 
-/// Destructor, removes the attribute again.
+/// Destructor, removes the attribute that was added by this object again
+/// (not another attribute with the same name that was added in the meantime).
 ///
 /// @since  1.15.0, 11.10.2018
 ScopedAttribute::~ScopedAttribute()
 {
 
-   Logging::instance().removeAttribute( mAttributeName);
+   Logging::instance().removeAttributeById( mAttributeId);
 
 } // ScopedAttribute::~ScopedAttribute
 
